@@ -347,6 +347,11 @@ def finish(ctx, level_text_rule):
         path = os.path.join(rd, h + ".json")
         with open(path, "w") as out:
             json.dump(f, out, indent=1)
+        if len(seen) > 300:
+            try:
+                os.remove(path)
+            except OSError:
+                pass
         if len(lines) < 25:
             lines.append("VIOLATION property=%s replay=%s" % (ctx.prop, path))
             log("  ", f.get("kind"), "|", f.get("query") or f.get("case"), "|", (f.get("detail") or "")[:300])
